@@ -53,7 +53,7 @@ ASSUMPTIONS = [
   "the implicit-integration system matrices are the ones MJWarp builds (their correctness is C27's subject); here only "
   "'the returned x solves the system that was passed' is decided",
 ]
-BUDGET = {"quick": 200, "thorough": 1500}
+BUDGET = {"quick": 300, "thorough": 1500}
 
 EPS32 = float(np.finfo(np.float32).eps)
 C_BACK = 24.0
